@@ -430,13 +430,15 @@ pub struct FaultWriter {
     pub intr_every: usize,
     pub calls: usize,
     pub flush_fails: bool,
+    /// transient Interrupted results the next `flush` calls report first
+    pub flush_intr: usize,
     pub failed: bool,
     pub calls_after_fail: usize,
     pub flushed: bool,
 }
 impl FaultWriter {
     pub fn new() -> Self {
-        FaultWriter { out: vec![], fault: None, zero_at: None, per_call: usize::MAX, intr_every: 0, calls: 0, flush_fails: false,
+        FaultWriter { out: vec![], fault: None, zero_at: None, per_call: usize::MAX, intr_every: 0, calls: 0, flush_fails: false, flush_intr: 0,
                       failed: false, calls_after_fail: 0, flushed: false }
     }
 }
@@ -472,6 +474,10 @@ impl Write for FaultWriter {
         Ok(n)
     }
     fn flush(&mut self) -> io::Result<()> {
+        if self.flush_intr > 0 {
+            self.flush_intr -= 1;
+            return Err(io::Error::new(ErrorKind::Interrupted, "scripted interrupt of flush"));
+        }
         self.flushed = true;
         if self.flush_fails {
             self.failed = true;
@@ -550,6 +556,7 @@ fn rel_c09_write(s: &mut Summary, rng: &mut Rng, files: &[(String, String)], tho
                 let mut w = FaultWriter::new();
                 w.per_call = per_call;
                 w.intr_every = intr;
+                w.flush_intr = if intr > 0 { intr % 3 } else { 0 };
                 let mut m = map.clone();
                 let res = m.encode(&mut w).map_err(|e| e.kind());
                 (res, w.out, w.flushed)
@@ -557,7 +564,8 @@ fn rel_c09_write(s: &mut Summary, rng: &mut Rng, files: &[(String, String)], tho
             s.checks += 1;
             match r {
                 Err(p) => s.mismatch("panic", json!({"file": name, "what": "short writes", "panic": p})),
-                Ok((Err(k), _, _)) => s.mismatch("transient-write-condition-surfaced", json!({"file": name, "per_call": per_call, "intr_every": intr, "got": format!("{k:?}")})),
+                Ok((Err(k), out, _)) => s.mismatch(if out == full && k == ErrorKind::Interrupted { "interrupted-flush-surfaced" } else { "transient-write-condition-surfaced" },
+                                                   json!({"file": name, "per_call": per_call, "intr_every": intr, "got": format!("{k:?}")})),
                 Ok((Ok(()), out, flushed)) => {
                     if out != full {
                         s.mismatch("short-writes-change-output", json!({"file": name, "per_call": per_call}));
@@ -867,6 +875,8 @@ struct ScriptedWriter {
     failed: bool,
     calls_after_fail: usize,
     flush_fails: bool,
+    /// transient Interrupted results the next `flush` calls report first
+    flush_intr: usize,
     flushed: bool,
 }
 impl Write for ScriptedWriter {
@@ -901,6 +911,10 @@ impl Write for ScriptedWriter {
         if self.failed {
             self.calls_after_fail += 1;
         }
+        if self.flush_intr > 0 {
+            self.flush_intr -= 1;
+            return Err(io::Error::new(ErrorKind::Interrupted, "scripted interrupt of flush"));
+        }
         self.flushed = true;
         if self.flush_fails {
             self.failed = true;
@@ -928,13 +942,14 @@ pub fn writer_replay(args: &Args, s: &mut Summary) {
         let script: Vec<i64> = geta(&c, "script").iter().map(|x| x.as_i64().unwrap()).collect();
         let want = gets(&c, "result");
         let flush_fails = script.last() == Some(&-100);
-        let writes: Vec<i64> = script.iter().cloned().filter(|x| *x != 100 && *x != -100).collect();
-        if writes.iter().any(|x| *x <= 0) || flush_fails {
+        let flush_intr = script.iter().filter(|x| **x == -101).count();
+        let writes: Vec<i64> = script.iter().cloned().filter(|x| *x != 100 && *x != -100 && *x != -101).collect();
+        if writes.iter().any(|x| *x <= 0) || flush_fails || flush_intr > 0 {
             s.nontrivial_key(&c["script"].to_string());
         }
         let mi = n % maps.len();
         let r = guarded(&format!("writer replay {script:?}"), || {
-            let mut w = ScriptedWriter { script: writes.clone(), next: 0, out: vec![], failed: false, calls_after_fail: 0, flush_fails, flushed: false };
+            let mut w = ScriptedWriter { script: writes.clone(), next: 0, out: vec![], failed: false, calls_after_fail: 0, flush_fails, flush_intr, flushed: false };
             let mut m = maps[mi].clone();
             let res = m.encode(&mut w).map_err(|e| e.kind());
             (res, w.calls_after_fail, w.out, w.flushed)
@@ -948,7 +963,7 @@ pub fn writer_replay(args: &Args, s: &mut Summary) {
                     Err(k) => format!("{k:?}"),
                 };
                 if got != want {
-                    s.mismatch(if want == "ok" { "transient-write-condition-surfaced" } else { "write-fault-swallowed-or-altered" },
+                    s.mismatch(if flush_intr > 0 && got == "Interrupted" { "interrupted-flush-surfaced" } else if want == "ok" { "transient-write-condition-surfaced" } else { "write-fault-swallowed-or-altered" },
                                json!({"script": script, "got": got, "want": want}));
                 } else if after > 0 {
                     s.mismatch("writes-after-failure", json!({"script": script, "calls": after}));
